@@ -249,13 +249,20 @@ func setupFile(v6 bool, args ...string) (handler.Handler6, handler.Handler4, err
 					continue
 				}
 
-				log.Infof("updated to %d leases from %s", len(StaticRecords), filename)
+				log.Infof("updated to %d leases from %s", recordCount(), filename)
 			}
 		}()
 	}
 
-	log.Infof("loaded %d leases from %s", len(StaticRecords), filename)
+	log.Infof("loaded %d leases from %s", recordCount(), filename)
 	return Handler6, Handler4, nil
+}
+
+// recordCount reads the size of the served table under the read lock
+func recordCount() int {
+	recLock.RLock()
+	defer recLock.RUnlock()
+	return len(StaticRecords)
 }
 
 func loadFromFile(v6 bool, filename string) error {
